@@ -352,6 +352,12 @@ def run(prop, tier):
             elif seen and ((seen.get("xchg") not in ("-", exs.get("xchg"))) or (seen.get("unlock") not in ("-", exs.get("unl")))):
                 ps["broken"].append("extraction disagrees with the run-time orders of the spinlock: extracted %s, observed %s" % (exs, seen))
 
+    sinkreg = None
+    if prop == "C17":
+        # the by-name sink registry: real SinkManager vs SinkReg.step + idempotence oracles (tools/sinkreg_stream.py)
+        import sinkreg_stream
+        sinkreg = sinkreg_stream.run(ck, tier, ps)
+
     mine_or = [o for o in res["oracle"] if o["prop"] == prop]
     mine_mm = [m for m in res["mismatches"] if prop in m["props"]]
     if res["aborts"]:
@@ -404,10 +410,15 @@ def run(prop, tier):
         ck.cov["transit_buffer_stream"] = transit
     if spin is not None:
         ck.cov["spinlock_stream"] = spin
+    if sinkreg is not None:
+        ck.cov["sink_registry_stream"] = sinkreg
     return ck.finish()
 
 
 def replay(prop, path):
+    if "sinkreg" in open(path).readline():
+        import sinkreg_stream
+        return sinkreg_stream.replay(prop, path)
     lines = [l.rstrip("\n") for l in open(path) if l.strip() and not l.startswith("#")]
     v = 1 if re.search(r"\.v1\.|variant=1|v1_", path + " ".join(lines[:2])) else 0
     ok, hbin, log = vlib.build_harness("h2_v%d" % v, ["h2_backend.cpp"], extra_flags=["-fno-access-control", "-DH2_VARIANT=%d" % v])
